@@ -4,7 +4,7 @@
 # suite passes with it), then runs our check against it (applied to /repo, reverted afterwards).
 ID="$1"; N="$2"; CHECK="${3:-$1}"; SECS="${4:-10}"; EXTRA="${5:-}"
 export GOFLAGS=-mod=mod GOPROXY=off GOSUMDB=off GOTOOLCHAIN=local
-SRC=/tmp/seed-$ID/out/$N
+SRC=${SEEDPFX:-/tmp/seed-}$ID/out/$N
 WT=$(mktemp -d /tmp/vseed-XXXX); rmdir $WT
 git -C /repo worktree add -q --detach $WT HEAD || exit 9
 cd $WT
